@@ -1,5 +1,5 @@
 """C18 — rank-decomposition trees: cache invalidation before tree surgery, canonical cache keys, annealer best tree, distinct indices."""
-from .. import hir, paths, zone, rencap
+from .. import hir, paths, zone, rencap, minirust, decompsem as ds
 from ..controls import fixture
 
 TREE = 'rankwidth::decomp_tree::DecompTree'
@@ -372,6 +372,91 @@ def zero_divisors(f):
     return out
 
 
+P4 = [(0, 1), (1, 2), (2, 3)]
+GRAPHS_QUICK = [
+    # (vertices, edges, unrefilled moves in a row, state cap, initial trees)
+    (2, [(0, 1)], 3, None, None), (2, [], 3, None, None),
+    (3, [(0, 1), (1, 2)], 2, None, None), (3, [], 1, None, None),
+    (4, P4, 2, 400, None),
+    (5, [(0, 1), (1, 2), (2, 3), (3, 4), (4, 0)], 1, 120, 2),
+]
+GRAPHS_THOROUGH = [
+    (2, [(0, 1)], 3, None, None), (2, [], 3, None, None),
+    (3, [(0, 1), (1, 2)], 3, None, None), (3, [], 2, None, None), (3, [(0, 1)], 2, None, None), (3, [(0, 1), (1, 2), (0, 2)], 2, None, None),
+    (4, P4, 1, None, None),                                   # to the fixpoint: every layout of every tree on four leaves
+    (4, P4, 3, 4000, None),
+    (4, [(0, 1), (1, 2), (2, 3), (3, 0)], 2, 1500, None), (4, [(0, 1), (0, 2), (0, 3)], 2, 1500, None), (4, [], 2, 600, None),
+    (4, [(0, 1), (2, 3)], 2, 1500, None), (4, [(0, 1), (0, 2), (0, 3), (1, 2), (1, 3), (2, 3)], 2, 600, None),
+    (5, [(0, 1), (1, 2), (2, 3), (3, 4), (4, 0)], 2, 2500, 6), (5, [(0, 1), (1, 2), (2, 3), (3, 4)], 2, 2500, 6),
+    (6, [(0, 3), (0, 4), (1, 3), (1, 5), (2, 4), (2, 5), (0, 1)], 1, 700, 2),
+]
+ANNEAL_QUICK = [
+    # (vertices, edges, settings, initial trees, run cap)
+    (4, P4, [{'iterations': 1}, {'iterations': 1, 'adaptive_cooling': False}], 2, None),
+    (4, [], [{'iterations': 1}], 1, None),
+    (3, [(0, 1)], [{'iterations': 1}, {'iterations': 0}], 2, None),
+    (2, [(0, 1)], [{'iterations': 2}], None, None),
+]
+ANNEAL_THOROUGH = [
+    (4, P4, [{'iterations': 1}, {'iterations': 1, 'adaptive_cooling': False}, {'iterations': 1, 'init_temp': 0.02}, {'iterations': 1, 'init_temp': 400.0},
+             {'iterations': 1, 'cooling_rate': 0.001}], None, None),
+    (4, P4, [{'iterations': 2}, {'iterations': 2, 'adaptive_cooling': False}], 4, 4000),
+    (4, [], [{'iterations': 1}, {'iterations': 2}], 2, 3000),
+    (4, [(0, 1), (1, 2), (2, 3), (3, 0)], [{'iterations': 1}], 6, None),
+    (5, [(0, 1), (1, 2), (2, 3), (3, 4), (4, 0)], [{'iterations': 1}], 8, None),
+    (3, [(0, 1)], [{'iterations': 2}, {'iterations': 0}], None, None), (3, [], [{'iterations': 2}], 2, None),
+    (2, [(0, 1)], [{'iterations': 3}], None, None), (2, [], [{'iterations': 2}], None, None),
+]
+EV_CLAUSES = ('structure', 'no-panic', 'cache', 'width', 'valid-for-graph', 'moves-terminate', 'annealer-valid', 'annealer-width')
+
+
+def ev_decomp(facts, tier, procs=8):
+    """the property's clauses by bounded exhaustive exploration (qxlib/decompsem.py) -> ({clause: (ok, detail)}, totals, per-graph stats)"""
+    res = dict((c, [True, '']) for c in EV_CLAUSES)
+    per = []
+    tot = {'states': 0, 'layouts': 0, 'transitions': 0, 'runs': 0, 'annealer_cases': 0, 'annealer_runs': 0, 'improved': 0, 'fixpoints': 0}
+    for n, edges, raw, cap, inits in (GRAPHS_THOROUGH if tier == 'thorough' else GRAPHS_QUICK):
+        g = ds.Graph(n, edges)
+        r = ds.explore(facts, g, raw_limit=raw, max_states=cap, inits=inits, procs=procs)
+        for c, (ok, d) in r['clauses'].items():
+            if not ok and res[c][0]:
+                res[c] = [False, d]
+        st = r['stats']
+        per.append({'graph': str(g), 'unrefilled_moves': raw, 'states': st['states'], 'layouts': st['layouts'], 'transitions': st['transitions'], 'runs': st['runs'],
+                    'runs_cut_in_rejection_loops': st['cut'], 'fixpoint': st['complete']})
+        for k in ('states', 'layouts', 'transitions', 'runs'):
+            tot[k] += st[k]
+        tot['fixpoints'] += 1 if st['complete'] else 0
+    r = ds.explore_annealer(facts, ANNEAL_THOROUGH if tier == 'thorough' else ANNEAL_QUICK, procs=procs)
+    for c, (ok, d) in r['clauses'].items():
+        if not ok and res[c][0]:
+            res[c] = [False, d]
+    per.extend(r['per'])
+    tot['annealer_cases'] += r['stats']['cases']
+    tot['annealer_runs'] += r['stats']['runs']
+    tot['improved'] += r['stats']['improved']
+    return res, tot, per
+
+
+def ev_controls(facts):
+    """the oracle must flag (a) a node array that is not a cubic tree and (b) a poisoned cache entry, the latter through the analysed rankwidth itself"""
+    g = ds.Graph(4, P4)
+    stats = {'runs': 0, 'cut': 0}
+    st = sorted(ds.initial_states(facts, g, stats).items(), key=lambda kv: kv[1])[0][0]
+    nodes = list(st[0])
+    k = [i for i, x in enumerate(nodes) if x[0] == 'I'][0]
+    nodes[k] = ('I', (nodes[k][1][0], nodes[k][1][0], nodes[k][1][2]), None)
+    broken = (tuple(nodes),) + st[1:]
+    a = bool(ds.structure(broken, 4)) and not ds.structure(st, 4)
+    ranks = ds.oracle_ranks(st, g)
+    e0 = sorted(ranks)[0]
+    poisoned = st[:3] + (frozenset([(e0, ranks[e0] + 2)]),)
+    ex = ds.examine(facts, poisoned, g)
+    ex0 = ds.examine(facts, st, g)
+    b = (not ex['structure']) and tuple(ex['reported']) != tuple(ex['scratch']) and tuple(ex0['reported']) == tuple(ex0['scratch']) and ex0['scratch'][0] == ex0['oracle'][0]
+    return a, b
+
+
 def run(ck):
     facts = ck.facts
     ck.decided('D1 every swap_subtrees is dominated by invalidation of both removed edges and the edges between them (clearing loop over path(c1,c2), or the three explicit clears, or clear_ranks()); move_subtree by clear_ranks(); '
@@ -379,7 +464,36 @@ def run(ck):
                'D2 the annealer replaces its best tree only under width < best_width (updated alongside), initialises it from the starting tree, compares the width of the candidate it stores, and returns it',
                'D3 the two-distinct-indices idioms in swap_random_leaves and random_local_swap are proved distinct and in range (zone domain, all paths)')
     ck.decided('D4 the moves return early unless the tree is large enough for them (leaf swap: 3 leaves; local swap and subtree move: 6 nodes; a path of 4 nodes before move_subtree); replace_neighbor rewrites the first occurrence only; the annealer does not divide by an integer score that can be 0')
-    ck.not_decided('validity of the tree after surgery (cubic, leaves = vertices)', 'recomputed widths equal cached widths as values', 'absence of panics in the pointer surgery')
+    ck.decided('D0 (evaluation, bounded) DecompTree and RankwidthAnnealer::run interpreted from their HIR on graphs with 2..5 vertices (thorough: ..6) over every outcome of every random draw: from every random '
+               'initial decomposition, every sequence of moves and cache refills in the explored bound keeps the node array a cubic tree whose leaves are exactly the vertices, does not panic, and reports a '
+               'rank-width and score equal to an independent from-scratch oracle; the annealer returns a valid tree no wider than its initial tree')
+    ck.not_decided('graphs beyond the explored sizes as values (the shape rules D1-D4 are size-independent readings of the same code)', 'rejection loops beyond their first round (one retry path is followed)')
+    evaluated = False
+    try:
+        res, tot, per = ev_decomp(facts, ck.tier)
+        evaluated = all(ok for ok, _d in res.values())
+        for cl in EV_CLAUSES:
+            ok, d = res[cl]
+            site = ck.site(TREE + '::swap_subtrees') if cl in ('structure', 'no-panic', 'valid-for-graph', 'moves-terminate') else \
+                ck.site(TREE + '::compute_ranks') if cl in ('cache', 'width') else ck.site('rankwidth::annealer::RankwidthAnnealer::<R, G>::run')
+            ck.ob('E3-decomp', cl, ok, site, d, sample=None)
+        ck.floor('E3-decomp-states', tot['states'], 640 if ck.tier != 'thorough' else 9000)
+        ck.floor('E3-decomp-annealer-cases', tot['annealer_cases'], 8 if ck.tier != 'thorough' else 40)
+        ck.floor('E3-decomp-annealer-narrows', tot['improved'], 1)
+        ck.note('decomposition trees: %d states (%d node-array layouts), %d transitions, %d interpreted runs; %d explorations reached their fixpoint; annealer: %d cases, %d runs, %d cases in which some run narrows the tree'
+                % (tot['states'], tot['layouts'], tot['transitions'], tot['runs'], tot['fixpoints'], tot['annealer_cases'], tot['annealer_runs'], tot['improved']))
+        for row in per:
+            ck.note('E3-decomp ' + '; '.join('%s=%s' % kv for kv in row.items()))
+        ca, cb = ev_controls(facts)
+        ck.control('E3-decomp oracle flags a node array that is not a cubic tree', ca)
+        ck.control('E3-decomp oracle flags a poisoned cache entry through the analysed rankwidth', cb)
+    except minirust.NoEval as ex:
+        ck.violation('E3-decomp', 'evaluation', ck.site(TREE + '::random_decomp'), 'the evaluator declined (%s: %s); the shape rules below decide what they can' % (type(ex).__name__, ex))
+    if evaluated:
+        why = 'the behaviour was decided by the bounded exhaustive evaluation E3-decomp in this run'
+        ck.positive_only = dict(getattr(ck, 'positive_only', {}))
+        for rule in ('R-PAIR-invalidate', 'R-GUARD-size', 'E3-distinct', 'R-EFFECT'):
+            ck.positive_only[rule] = why
     nsw = 0
     for key in (TREE + '::swap_random_leaves', TREE + '::random_local_swap'):
         f = ck.fn(key)
